@@ -440,7 +440,8 @@ def check_encode(enc, cfg, spec):
 
 US_VALUES = [0, 4000, 123000, 1000, 999000, 500000, 1, 999999, 123456, 100, 10]
 TZ_VALUES = [None, 0] + [h * 60 + m for h, m in OFFSETS if (h, m) != (0, 0)] + \
-    [-(abs(h) * 60 + m) for h, m in OFFSETS if h < 0 and m]
+    [-(abs(h) * 60 + m) for h, m in OFFSETS if h < 0 and m] + \
+    [780, 840, 810, -780, -840, 1439, -1439, 721, -721, 765, 1, -1]   # beyond ODL's +-12 h: written faithfully or refused
 
 
 def encode_grid(acc, enc):
